@@ -474,12 +474,25 @@ def monC05 (h : Hist) : Option String :=
           | none => none)
         | _, _ => none
       | _ => none,
+    -- an origin body that broke off is not handed over as a complete, shorter one (the caller sees the failure):
+    -- judged on the exchange's own last origin call, whether or not enough of the body arrived to identify it
+    h.reqs.findSome? fun ri => do
+      let x ← h.ex ri
+      let c ← x.fgCalls.getLast?
+      let rp ← h.reply ri.n c.k
+      if x.res.kind == "resp" && !x.fromStore && rp.bodyFail ≥ 0 && !x.res.bodyErr && x.res.status = rp.resp.status &&
+         x.res.body.length < rp.resp.body.length && rp.resp.body.take x.res.body.length = x.res.body then
+        some s!"exchange {ri.n}: the origin's body broke off after {rp.bodyFail} bytes and the caller was given {x.res.body.length} of its {rp.resp.body.length} bytes as a complete body"
+      else none,
     h.reqs.findSome? fun ri => do
       let x ← h.ex ri
       if x.res.kind != "resp" then none else
       let (m, k) ← x.token
       let rp ← h.reply m k
       if x.res.bodyErr && rp.bodyFail < 0 then some s!"exchange {ri.n}: body of the response of exchange {m} could not be read by the caller" else
+      -- an origin body that broke off is not handed over as a complete, shorter one: the caller sees the failure
+      if rp.bodyFail ≥ 0 && m = ri.n && !x.res.bodyErr && x.res.body.length < rp.resp.body.length then
+        some s!"exchange {ri.n}: the origin's body broke off after {rp.bodyFail} bytes and the caller was given {x.res.body.length} bytes of it as a complete body" else
       if rp.bodyFail ≥ 0 then none else
       if x.res.body ≠ rp.resp.body then
         some s!"exchange {ri.n}: body differs from what the origin sent in exchange {m} ({x.res.body.length} vs {rp.resp.body.length} bytes shown)"
